@@ -132,3 +132,56 @@ def k_fw_immutable(P, E):
                       "a FunctionWrapper is cleared outside impl Observer (or not one of the observer's own slots): a "
                       "captured operator function / observable can be emptied for later subscriptions", body=b, line=c.line)
     return r
+
+
+def k_slot_fresh(P, E):
+    """The slots an Observer clears at its terminal / unsubscribe are its OWN cells: wherever an Observer value is built, each of
+    its three callback slots is a FunctionWrapper made right there (FunctionWrapper::new of a closure) - never a wrapper that was
+    handed in or cloned from somewhere (clones of a FunctionWrapper share one cell: the observer's first terminal would empty the
+    operator's callback for every later subscription).  The same for Subscription's take-once `fn_unsubscribe`."""
+    r = RuleResult("K-slot-fresh", "the cells an Observer / Subscription empties are created by its own constructor (FunctionWrapper::new there)")
+    table = {OBSERVER: ("fn_next", "fn_error", "fn_complete"), "subscription::Subscription": ("fn_unsubscribe",)}
+    ren = P.facts.get("_field_renames_q") or {}
+    n = 0
+    for b in P.bodies.values():
+        if b.id in P.absorbed or b.kind == "const":
+            continue
+        if b.name == "clone" and "Clone" in (b.impl_trait or ""):
+            continue          # a clone of the SAME observer shares its cells by design (CLONE-SHARES)
+        for i in sorted(b.reach):
+            for st in b.blocks[i]["stmts"]:
+                if st["k"] != "assign" or st["rv"]["k"] != "agg" or st["rv"].get("ak") != "adt":
+                    continue
+                adt = norm(st["rv"].get("def") or "")
+                if adt not in table:
+                    continue
+                a = P.adts.get(adt)
+                if a is None or len(a["variants"]) != 1:
+                    r.error("K-slot-fresh: struct %s not found" % adt)
+                    continue
+                canon = [ren.get((adt, f["name"]), f["name"]) for f in a["variants"][0]["fields"]]
+                n += 1
+                for fld in table[adt]:
+                    if fld not in canon:
+                        r.error("K-slot-fresh: field %s of %s not identified" % (fld, adt))
+                        continue
+                    op = st["rv"]["ops"][canon.index(fld)]
+                    fresh = False
+                    for t in b.operand_prov(op):
+                        if t[0] == "ret" and not t[2]:
+                            k = b.call_at(t[1])
+                            if k is not None and atom(k) == "fw_new":
+                                fresh = True
+                                continue
+                        fresh = False
+                        break
+                    r.instance((b.nid, adt.split("::")[-1], fld), True, "built by FunctionWrapper::new here: %s" % fresh)
+                    if not fresh:
+                        r.violate((b.nid, adt.split("::")[-1] + "." + fld, "slot is not a fresh cell"),
+                                  "%s builds a %s whose `%s` is not a FunctionWrapper created on the spot but %s: clones of a FunctionWrapper share "
+                                  "one cell, so when this %s empties the slot (terminal / unsubscribe) it empties the original too - for every "
+                                  "later subscription" % (b.nid, adt.split("::")[-1], fld, sorted(b.term_name(t) for t in b.operand_prov(op)),
+                                                          adt.split("::")[-1]), body=b, line=st.get("line"))
+    if n < 2:
+        r.error("K-slot-fresh: only %d Observer / Subscription constructions found (floor 2)" % n)
+    return r
